@@ -41,6 +41,7 @@ type RuleInfo struct {
 
 // Ctx collects the outcome of one check run.
 type Ctx struct {
+	included  bool // this context runs a check on behalf of another property (Ctx.include)
 	Prop      string
 	Tier      string
 	P         *Program
@@ -273,7 +274,11 @@ func (c *Ctx) Finish(verifDir string, seed int) int {
 // mechanism another property already decides (e.g. a valid file needs well-formed meta events): the same rule instances
 // are obligations of both.
 func (c *Ctx) include(fn propFn, as map[string]string) {
+	if c.included {
+		return // includes are one level deep: a check that runs as part of another one does not pull in its own inclusions
+	}
 	sub := NewCtx(c.Prop, c.Tier, c.P)
+	sub.included = true
 	func() {
 		defer func() {
 			if r := recover(); r != nil {
